@@ -115,8 +115,32 @@ theorem decodeMsg_fields {L : Lib J} {line : Bytes} {t : Triple J} (h : decodeMs
       · cases h
   · cases h
 
+/-- a dispatcher doing its part in the sense of `DispFits` sends only triples without newline in action and specifier -/
+theorem dispFits_noEol {T : Tables} {L : Lib J} {d : Disp σ J} (hd : DispFits T L d) : DispNoEol d := by
+  intro st t _
+  obtain ⟨hasync, hres⟩ := hd st t
+  have wf : ∀ m : Triple J, WFTriple L m → NoEolTriple m := by
+    intro m hm
+    refine ⟨hm.1.2.2.1, ?_⟩
+    cases hs : m.spec with
+    | none => simp
+    | some s => simpa using (hm.2 s hs).2.2.1
+  refine ⟨fun m hm => wf m (hasync m hm).1, fun r hr => ?_⟩
+  rw [hr] at hres
+  exact wf r hres.1
+
+/-- … and its replies belong to the requests -/
+theorem dispFits_answers {T : Tables} {L : Lib J} {d : Disp σ J} (hd : DispFits T L d) : DispAnswers T d := by
+  intro st t
+  have h := (hd st t).2
+  cases hr : (d st t).1.res with
+  | ok r => rw [hr] at h; exact h.2
+  | secop c => rw [hr] at h; exact h
+  | exc => trivial
+  | garbage => trivial
+
 theorem eol_handleLine (T : Tables) (L : Lib J) (d : Disp σ J) (laws : LibLaws L) (tf : TableNoEol T)
-    (hd : DispFits T L d) (st : σ) (line : Bytes) (hline : EOL ∉ line) :
+    (hd : DispNoEol d) (st : σ) (line : Bytes) (hline : EOL ∉ line) :
     ∀ o ∈ (handleLine T L d st line).1, EOL ∉ joined L o.msg := by
   intro o ho
   have hstrip : EOL ∉ strip line := fun h => hline (mem_strip h)
@@ -159,15 +183,9 @@ theorem eol_handleLine (T : Tables) (L : Lib J) (d : Disp σ J) (laws : LibLaws 
         · simp
         · intro j hj; simp at hj
     · simp only [hh, ↓reduceIte, List.mem_append, List.mem_map, List.mem_singleton] at ho
-      obtain ⟨hasync, hres⟩ := hd st t
-      have wf_noEol : ∀ m : Triple J, WFTriple L m → EOL ∉ joined L m := by
+      have wf_noEol : ∀ m : Triple J, NoEolTriple m → EOL ∉ joined L m := by
         intro m hm
-        apply eol_joined
-        · exact hm.1.2.2.1
-        · cases hs : m.spec with
-          | none => simp
-          | some s => simpa using (hm.2 s hs).2.2.1
-        · intro j _; exact laws.dumps_noEol _
+        exact eol_joined L m hm.1 hm.2 (fun j _ => laws.dumps_noEol _)
       -- the fields of the request come out of the line
       have hreq : EOL ∉ t.action ∧ EOL ∉ t.spec.getD [] := by
         unfold nextMessage at hn
@@ -182,16 +200,17 @@ theorem eol_handleLine (T : Tables) (L : Lib J) (d : Disp σ J) (laws : LibLaws 
             rw [h1, h2]
             exact ⟨fun h => hstrip (hp.1 _ h), fun h => hstrip (hp.2.1 _ h)⟩
           · cases hn
+      obtain ⟨hasync, hres⟩ := hd st t hreq
       rcases ho with ⟨m, hm, rfl⟩ | rfl
-      · exact wf_noEol m (hasync m hm).1
+      · exact wf_noEol m (hasync m hm)
       · cases hr : (d st t).1.res with
-        | ok r => rw [hr] at hres; simp only [resultReply]; exact wf_noEol r hres.1
+        | ok r => simp only [resultReply]; exact wf_noEol r (hres r hr)
         | secop c => simp only [resultReply]; exact eol_errorReply T L laws tf _ _ _ hreq.1 hreq.2
         | exc => simp only [resultReply]; exact eol_errorReply T L laws tf _ _ _ hreq.1 hreq.2
         | garbage => simp only [resultReply]; exact eol_errorReply T L laws tf _ _ _ hreq.1 hreq.2
 
 theorem eol_serveLines (T : Tables) (L : Lib J) (d : Disp σ J) (laws : LibLaws L) (tf : TableNoEol T)
-    (hd : DispFits T L d) : ∀ (ls : List Bytes) (st : σ), (∀ l ∈ ls, EOL ∉ l) →
+    (hd : DispNoEol d) : ∀ (ls : List Bytes) (st : σ), (∀ l ∈ ls, EOL ∉ l) →
     ∀ o ∈ (serveLines T L d st ls).1, EOL ∉ joined L o.msg
   | [], _, _, o, ho => by simp [serveLines] at ho
   | l :: ls, st, hls, o, ho => by
